@@ -728,6 +728,57 @@ func ruleRows(c *Ctx) *RuleResult {
 				break
 			}
 		}
+		// (c) a row is not a verbatim copy of a caller-supplied list either: the caller's list is in any
+		// order and may repeat, and IsEdge searches rows by bisection - rows built from an argument go
+		// through sortints.NewSortedInts
+		for v, in := range rowVals {
+			w := v
+			for {
+				if ct, ok := w.(*ssa.ChangeType); ok {
+					w = ct.X
+					continue
+				}
+				if sl, ok := w.(*ssa.Slice); ok {
+					w = sl.X
+					continue
+				}
+				break
+			}
+			mk, isMake := w.(*ssa.MakeSlice)
+			if !isMake || mk.Referrers() == nil {
+				continue
+			}
+			for _, ref := range *mk.Referrers() {
+				call, ok := ref.(*ssa.Call)
+				if !ok {
+					continue
+				}
+				bi, isB := call.Call.Value.(*ssa.Builtin)
+				if !isB || bi.Name() != "copy" || len(call.Call.Args) != 2 || call.Call.Args[0] != ssa.Value(mk) {
+					continue
+				}
+				for l := range f.P(call.Call.Args[1]) {
+					if l.o.root < 0 || l.o.root >= rFree || l.o.root >= len(fn.Params) {
+						continue
+					}
+					pt := fn.Params[l.o.root].Type()
+					if pp, ok := pt.Underlying().(*types.Pointer); ok {
+						pt = pp.Elem()
+					}
+					if types.Identical(pt, sparseT) {
+						continue
+					}
+					desc := c.srcAt(call.Pos())
+					if desc == "" {
+						desc = "copy"
+					}
+					r.inst("%s: row filled by %s", c.short(fn), desc)
+					r.oblig(false)
+					r.find(c.short(fn)+":row copied verbatim from an argument", c.instrPos(in), "%s stores as a row of the neighbour table a verbatim copy of caller-supplied data (%s from %s): the caller's list may be in any order and may repeat, while IsEdge bisects rows and M counts their lengths; rows built from an argument go through sortints.NewSortedInts", c.short(fn), desc, E.apString(fn, f.apOf(l)))
+					break
+				}
+			}
+		}
 		for _, b := range fn.Blocks {
 			for _, in := range b.Instrs {
 				st, ok := in.(*ssa.Store)
@@ -865,6 +916,12 @@ func ruleOwner(c *Ctx, pkgRel, typeName string, methods []string) *RuleResult {
 			for _, in := range b.Instrs {
 				if call, ok := in.(*ssa.Call); ok {
 					if cal := call.Call.StaticCallee(); cal != nil && allowed[cal] {
+						continue
+					}
+					// a named module function that is handed the graph is judged on its own body by
+					// this same rule (the graph is one of its parameters): a generator whose loop
+					// moved into a helper that calls AddEdge writes nothing itself
+					if cal := call.Call.StaticCallee(); cal != nil && c.inModule(cal) && cal.Blocks != nil && cal.Parent() == nil && cal.Synthetic == "" {
 						continue
 					}
 					if call.Call.IsInvoke() {
